@@ -211,7 +211,11 @@ def check(prop, tier, seed):
         "obligations": obligations, "discharged": discharged,
         "checker_cmd": "cd coq && make Properties/%s.vo Pins/Pins_%s.vo && coqc -Q . BBF Properties/%s.v  (Print Assumptions under every theorem)" % (prop, prop, prop),
         "trusted_base": TRUSTED_BASE, "theorems": theorems,
-        "rule": gen["rule"], "exhaustive": bool(gen.get("exhaustive")),
+        "rule": gen["rule"],
+        # the property quantifies over an unbounded space, which only the theorems cover; the correspondence runs on
+        # generated cases and is never exhaustive for it. Whether the generator enumerates a finite SUB-space completely
+        # (e.g. every truth function of <= 3 variables) is said in `rule` and flagged separately
+        "exhaustive": False, "finite_subspace_enumerated_completely": bool(gen.get("exhaustive")),
         "input_distribution": gen.get("dist", {}),
     }
 
